@@ -233,3 +233,41 @@ def show(e, depth=0):
     if k == 'fnref':
         return e['q']
     return '<%s>' % k
+
+
+def full_container_loop(loop, container_pred):
+    """`for (it = C.begin(); it != C.end(); ++it)` over a container expression accepted by
+    container_pred(expr).  Returns the iterator's local id or None."""
+    if loop.get('k') != 'for':
+        return None
+    init = loop.get('init')
+    if not (init and init.get('k') == 'decl' and len(init['vars']) == 1):
+        return None
+    v = init['vars'][0]
+    i = strip(v.get('init'), casts=True) if v.get('init') else {}
+    while i.get('k') == 'construct' and len(i['args']) == 1:
+        i = strip(i['args'][0], casts=True)
+    if not (i.get('k') == 'call' and i.get('n') in ('begin', 'cbegin') and container_pred(i.get('obj'))):
+        return None
+    c = strip(loop.get('c'), casts=True)
+    if not (c.get('k') == 'call' and c.get('n') == 'operator!=' and len(c['args']) == 2):
+        return None
+    a, b = strip(c['args'][0], casts=True), strip(c['args'][1], casts=True)
+    while b.get('k') == 'construct' and len(b['args']) == 1:
+        b = strip(b['args'][0], casts=True)
+    if not (is_local(a, v['id']) and b.get('k') == 'call' and b.get('n') in ('end', 'cend') and container_pred(b.get('obj'))):
+        return None
+    inc = strip(loop.get('inc'), casts=True)
+    if not (inc.get('k') == 'call' and inc.get('n') == 'operator++' and is_local(inc['args'][0], v['id'])):
+        return None
+    return v['id']
+
+
+def assigned_in(node, lid):
+    """is local lid assigned (other than by ++) inside node"""
+    for n in walk(node):
+        if n.get('k') == 'bin' and n['op'].endswith('=') and n['op'] not in ('==', '!=', '<=', '>=') and is_local(n['a'], lid):
+            return True
+        if n.get('k') == 'call' and n.get('opcall') and n.get('n') in ('operator=',) and is_local(n['args'][0], lid):
+            return True
+    return False
